@@ -108,6 +108,7 @@ def c02(ctx):
     over = lambda tag: ("o" in tag) or ("m" in tag)
     ctx.stream("threshold", gen.overflow_lines(rng, fm, tiers(ctx, 6, 40)), nontrivial=over)
     ctx.stream("scale-beyond-range", gen.scale_overflow_lines(rng, fm), nontrivial=over)
+    ctx.stream("scale-extreme-k", gen.scale_extreme_k_lines(rng, [(2, 2), (3, 3), (5, 11), (8, 24), (11, 53), (15, 64), (19, 237)]), nontrivial=lambda t: True)
     # exhaustive small formats: all four operations (every result that overflows or is the largest finite)
     small = tiers(ctx, [(2, 2), (2, 3), (3, 3), (3, 4)], gen.SMALL_QUICK + [(4, 4)])
     ctx.stream("exh-small-arith", gen.exh_binary(["add", "sub", "mul", "div"], small, values=gen.finite_values), exhaustive=True, nontrivial=over)
@@ -221,6 +222,7 @@ def c10(ctx):
     ctx.stream("scale-exh", gen.scale_lines_exh(tiers(ctx, [(2, 2), (2, 3), (3, 3), (3, 4)], gen.SMALL_QUICK + [(4, 4)])), exhaustive=True)
     ctx.stream("scale-real", gen.scale_lines_real(rng, tiers(ctx, 20000, 300000)))
     ctx.stream("scale-beyond-range", gen.scale_overflow_lines(rng, gen.SMALL_QUICK + gen.REAL))
+    ctx.stream("scale-extreme-k", gen.scale_extreme_k_lines(rng, [(2, 2), (3, 3), (5, 11), (8, 24), (11, 53), (15, 64), (19, 237), (20, 70)]), nontrivial=lambda t: True)
     ctx.stream("trunc-round-real", gen.truncround_real(rng, tiers(ctx, 20000, 300000)))
     return done(ctx)
 
@@ -493,6 +495,7 @@ def c19(ctx):
                 lines.append("powi %s %d %s" % (s, rng.choice([0, 1, 2, 3, 2 ** 63, 2 ** 64 - 1]), a))
                 lines.append("frac %s %d %s" % (s, rng.choice([0, 1, 2, 5, 16]), a))
                 lines.append("scale %s %s %d %s" % (s, m, rng.choice([2 ** 40 - 1, -(2 ** 40 - 1), s.emax - s.emin, s.emin - s.emax]), a))
+                lines.append("scale %s %s %d %s" % (s, m, rng.choice([2 ** 63 - 1, -2 ** 63, 2 ** 63 - 2, -2 ** 63 + 1, 2 ** 62, -2 ** 62]), a))
                 for (E2, P2) in [(2, 2), (20, 64), (E, P + 1)]:
                     lines.append("cast %s %s %s %s" % (s, Sem(E2, P2, "E"), m, a))
                 for b in ext[:6] + gen.SPECIALS[:3]:
